@@ -60,12 +60,69 @@ def summarise(it, consumer: str, node, env, src):
 
 
 def summarise_dict(it, node, env):
-    c = it.st.contract
+    """{k(x): v(x) for x in S} over a sequence of unknown length (T-COLL: a later item with an equal
+    key replaces the earlier value).  The result is a fresh dict described by a witness function
+    last[key] = index of the last item producing that key."""
+    from .state import QFact
+    st = it.st
+    c = st.contract
     if c is not None and hasattr(c, "dict_comprehension"):
         r = c.dict_comprehension(it, node, env)
         if r is not None:
             return r
-    raise Unsupported(f"dict comprehension at line {node.lineno}")
+    gen = node.generators[0]
+    if len(node.generators) != 1 or gen.ifs or gen.is_async:
+        raise Unsupported(f"dict comprehension shape at line {node.lineno}")
+    src = it.eval(gen.iter, env)
+    sv = lib.seq_view(it, src)
+    if sv is None:
+        raise Unsupported(f"dict comprehension over a non-sequence value at line {node.lineno}")
+    arr, lo, hi = sv
+    x = st.fresh("elem", Val)
+    e2 = Env(env.module, env)
+    it.assign(gen.target, x, e2)
+    st.no_fork += 1
+    try:
+        kt = it.eval(node.key, e2)
+        vt = it.eval(node.value, e2)
+    except PyRaise:
+        raise Unsupported("key/value expression of a summarised dict comprehension may raise")
+    finally:
+        st.no_fork -= 1
+    K = lambda t: z3.substitute(kt, (x, t))
+    Vf = lambda t: z3.substitute(vt, (x, t))
+    d = lib.new_dict(it, "dict")
+    has = st.fresh("dc_has", V.ArrVB)
+    val = st.fresh("dc_val", V.ArrVV)
+    last = st.fresh("dc_last", V.ArrVI)
+    for f, v in (("$dhas", has), ("$dval", val)):
+        st.put(d, f, v)
+    # insertion order is not needed by the callers of the verified code beyond well-formedness
+    keys = st.fresh("dc_keys", V.ArrIV)
+    pos = st.fresh("dc_pos", V.ArrVI)
+    n = st.fresh("dc_n", I)
+    st.put(d, "$arr", keys)
+    st.put(d, "$dpos", pos)
+    st.put(d, "$lo", z3.IntVal(0))
+    st.put(d, "$hi", n)
+    st.assume(z3.And(n >= 0, n <= hi - lo))
+    k = z3.Const("k!dc", Val)
+    st.assume(QFact(lambda k: z3.Implies(z3.Select(has, k),
+                                         z3.And(lo <= z3.Select(last, k), z3.Select(last, k) < hi,
+                                                K(z3.Select(arr, z3.Select(last, k))) == k,
+                                                z3.Select(val, k) == Vf(z3.Select(arr, z3.Select(last, k))),
+                                                0 <= z3.Select(pos, k), z3.Select(pos, k) < n,
+                                                z3.Select(keys, z3.Select(pos, k)) == k)),
+                    sort=Val, pattern=lambda k: z3.Select(has, k), name="dc1"))
+    st.assume(QFact(lambda i: z3.Implies(z3.And(lo <= i, i < hi),
+                                         z3.And(z3.Select(has, K(z3.Select(arr, i))),
+                                                i <= z3.Select(last, K(z3.Select(arr, i))))),
+                    pattern=lambda i: z3.Select(arr, i), name="dc2"))
+    st.assume(QFact(lambda i: z3.Implies(z3.And(0 <= i, i < n),
+                                         z3.And(z3.Select(has, z3.Select(keys, i)), z3.Select(pos, z3.Select(keys, i)) == i)),
+                    pattern=lambda i: z3.Select(keys, i), name="dc3"))
+    st.ghost.setdefault("$dictcomps", []).append(dict(result=d, has=has, val=val, last=last, src=(arr, lo, hi), K=K, V=Vf))
+    return d
 
 
 def _filtered(it, consumer, node, gen, env, x, body, arr, lo, hi):
